@@ -565,6 +565,41 @@ def expr_spec(repo, spec):
     return e, node.lineno, " ".join(ast.unparse(node).split())
 
 
+# ---------------------------------------------------------------------------------------------------------------
+# transform chains: which transforms `ArchiveBase.add` / `add_single` / `ProximityArchive.add` hand to the store, in
+# which order, and under which condition the statistics are updated afterwards
+
+CHAIN_NAME_SPECS = [
+    dict(name="archAdd", file="ribs/archives/_archive_base.py", func="ArchiveBase.add"),
+    dict(name="archAddSingle", file="ribs/archives/_archive_base.py", func="ArchiveBase.add_single"),
+    dict(name="proxAdd", file="ribs/archives/_proximity_archive.py", func="ProximityArchive.add"),
+]
+
+
+def chain_names(repo, spec):
+    tree = ast.parse(open(os.path.join(repo, spec["file"])).read())
+    func = find_function(tree, spec["func"])
+    calls = [n for n in ast.walk(func) if isinstance(n, ast.Call) and call_name(n.func) == "self._store.add"]
+    if len(calls) != 1:
+        raise Untranslatable(f"{len(calls)} calls of self._store.add")
+    c = calls[0]
+    if len(c.args) < 4 or not isinstance(c.args[3], ast.List) or not all(isinstance(e, ast.Name) for e in c.args[3].elts):
+        raise Untranslatable("the transform chain is not a literal list of names")
+    names = [e.id for e in c.args[3].elts]
+    # the guard of the statistics update that follows
+    guards = [n for n in ast.walk(func) if isinstance(n, ast.If) and any(
+        isinstance(x, ast.Call) and call_name(x.func) == "self._stats_update" for x in ast.walk(n))]
+    if len(guards) != 1:
+        raise Untranslatable(f"{len(guards)} guarded calls of self._stats_update")
+    g = " ".join(ast.unparse(guards[0].test).split())
+    known = {"not np.all(add_info['status'] == 0)": "anyInserted", "add_info['status']": "anyInserted",
+             "len(add_indices) > 0": "anyWritten", "len(add_info['status']) > 0 and (not np.all(add_info['status'] == 0))":
+             "anyInserted"}
+    if g not in known:
+        raise Untranslatable(f"statistics guard `{g[:60]}`")
+    return names, known[g], c.lineno, f"self._store.add(…, [{', '.join(names)}]); if {g}: self._stats_update(…)"
+
+
 FALLBACK = {"Nat": "0", "E": "E.bad", "Bool": "false", "Option E": "none", "Option Nat": "none"}
 
 
@@ -626,6 +661,20 @@ def translate(repo, out_path):
         lines.append("")
         recs.append({"name": spec["name"], "file": spec["file"], "func": spec["func"], "line": line, "ok": ok,
                      "why": why, "python": src[:200], "lean": e})
+    for spec in CHAIN_NAME_SPECS:
+        try:
+            names, guard, line, src = chain_names(repo, spec)
+            ok, why = True, ""
+        except (Untranslatable, SyntaxError, OSError, StopIteration, KeyError, AttributeError) as ex:
+            names, guard, line, src, ok, why = [], "untranslatable", 0, "", False, f"{type(ex).__name__}: {ex}"
+        lines.append(f"/-- `{spec['file']}:{spec['func']}`" + (f" line {line}: `{src[:200]}`" if ok else
+                                                                f" -- TRANSLATION FAILED: {why}") + " -/")
+        lst = "[" + ", ".join(f'"{n}"' for n in names) + "]"
+        lines.append(f"def {spec['name']}Chain : List String :=\n  {lst}")
+        lines.append(f"def {spec['name']}StatsGuard : String :=\n  \"{guard}\"")
+        lines.append("")
+        recs.append({"name": spec["name"] + "Chain", "file": spec["file"], "func": spec["func"], "line": line, "ok": ok,
+                     "why": why, "python": src[:200], "lean": f"{lst}; guard {guard}"})
     for spec in EFFECT_SPECS:
         ebind = " ".join(f"({v} : {t})" for v, t in EFFECT_VARS)
         try:
